@@ -353,12 +353,27 @@ def _interval(ctx: Ctx, c: Collector) -> None:
     if kw.get("cutoff") != cut:
         pr.append(f"cutoff is {T.show(kw.get('cutoff'))} instead of src depth - ascent")
     tiers = r.term[2][0][1] if r.term[2] and r.term[2][0][0] == "star" else None
-    if tiers is None or tiers[0] != "var":
+    sparse = None
+    if tiers is not None and T.strip(tiers)[0] == "bag" and len(T.strip(tiers)[1]) == 1:
+        # the non-zero tiers are collected in a table position -> value, and the tiers are `table.get(i, 0)` for
+        # every position i of the destination's depth
+        el = T.strip(tiers)[1][0]
+        v = T.strip(el[1])
+        if (v[0] == "call" and v[1][0] == "attr" and v[1][2] == "get" and v[1][1][0] == "var" and len(v[2]) == 2 and v[2][1] == T.const(0) and not el[2]
+                and len(el[3]) == 1 and el[3][0][1] == v[2][0] and T.strip(el[3][0][2]) in (call(T.glob("range"), ("attr", dg, "depth")), call(T.glob("range"), T.const(0), ("attr", dg, "depth")))
+                and any(b2.term[1] == v[1][1] and T.strip(b2.term[2]) in (("dict", ()), call(T.glob("dict"))) and not b2.iters for b2 in s.of_kind("bind"))):
+            sparse = v[1][1]
+    if tiers is None or (tiers[0] != "var" and sparse is None):
         pr.append("tiers not built from a mutable list")
     else:
-        b = [e for e in s.of_kind("bind") if e.term[1] == tiers]
-        if not b or b[0].term[2] != ("op", "*", ("bag", (("elem", T.const(0), (), ()),), "list"), ("attr", dg, "depth")):
-            pr.append("the interval does not have one zero tier per level of the destination group")
+        if sparse is not None:
+            tiers = sparse
+            if any((e.kind == "del" and T.contains((e.term,), tiers)) or (e.kind == "call" and e.term[1][0] == "attr" and e.term[1][1] == tiers and e.term[1][2] != "get") for e in s.events):
+                pr.append("the table of non-zero tiers is modified in other ways than by placing a value")
+        else:
+            b = [e for e in s.of_kind("bind") if e.term[1] == tiers]
+            if not b or b[0].term[2] != ("op", "*", ("bag", (("elem", T.const(0), (), ()),), "list"), ("attr", dg, "depth")):
+                pr.append("the interval does not have one zero tier per level of the destination group")
         sts = {e.term[1][2]: e for e in s.of_kind("store") if e.term[1][0] == "idx" and e.term[1][1] == tiers}
         e0 = sts.get(T.const(0))
         ew = sts.get(("op", "-", cut, T.const(1)))
@@ -415,6 +430,18 @@ def _interval(ctx: Ctx, c: Collector) -> None:
             t = T.strip(t[2][0])
         if t[0] == "bag":
             els = t[1]
+            if len(els) == 1 and els[0][1][0] == "var" and len(els[0][3]) == 1 and els[0][3][0][1] == ("while",):
+                # `w = g; while w: yield w; w = w.parent` (a generator helper read in place)
+                w = els[0][1]
+                cond = T.strip(els[0][3][0][2])
+                inits = [b for b in gs.of_kind("bind") if b.term[1] == w and not b.iters]
+                steps = [b for b in gs.of_kind("bind") if b.term[1] == w and b.iters == els[0][3]]
+                if cond in (w, ("cmp", "isnot", w, T.NONE)) and len(inits) == 1 and len(steps) == 1 and steps[0].term[2] == ("attr", w, "parent") \
+                        and all(T.guard_term(g) in (w, ("cmp", "isnot", w, T.NONE)) for g in els[0][2]):
+                    ys = [e for e in gs.of_kind("yield") if e.term == w and e.iters == els[0][3]]
+                    if not ys or ys[0].idx < steps[0].idx:
+                        return T.strip(inits[0].term[2])
+                return None
             if len(els) == 2 and not els[0][3] and els[1][1][0] == "attr" and els[1][1][2] == "parent":
                 root = els[0][1]
                 walkers = {root} | {e.term[1] for e in gs.of_kind("bind") if e.term[2] == root and not e.iters}
@@ -529,7 +556,7 @@ def _interval(ctx: Ctx, c: Collector) -> None:
             okret = any(r.term[0] == "tuple" and len(r.term[1]) == 3 and r.term[1][0] == look.term and r.term[1][2] == cand and (counter is None or r.term[1][1] == counter) for r in rts)
             if not okret:
                 pr.append("does not return (index of the common group in the source chain, descent, common group)")
-        if not any(r == "body" for _, r in look.tries):
+        if not any(r == "body" for _, r in look.tries) and ("cmp", "in", look.term[2][0], look.term[1][1]) not in guard_terms(look.guards):
             pr.append("a destination group that is not an ancestor of the source ends the search (ValueError not handled)")
     c.add("group_path", GROUP_PATH, "ascent = index of first common ancestor", VIOLATED if pr else DISCHARGED, "; ".join(pr), gfi.loc)
 
